@@ -4,6 +4,10 @@
 (* writer -> sink.  Implementation-shaped after                            *)
 (*   core/aggregator/netsample/phout.go  (Mode = "block":                  *)
 (*        Report = `a.sink <- s` on a buffered channel)                    *)
+(*   core/aggregator/log.go  (Mode = "block" too: same loop, Q = 128, each *)
+(*        sample is written through - Dequeue directly followed by Spill)  *)
+(*   core/aggregator/discard.go (Mode = "discard": Report throws away,     *)
+(*        Run just waits for ctx.Done())                                   *)
 (*   core/aggregator/reporter.go + encoder.go (Mode = "drop":              *)
 (*        Report = select { case Incomming <- s: default: dropped++ })     *)
 (* One action per select case / statement of Run:                          *)
@@ -31,7 +35,7 @@ EXTENDS Phout
 CONSTANTS K,        \* reporter goroutines 1..K
           M,        \* reports per goroutine
           Q,        \* queue capacity (>= 1)
-          Mode,     \* "block" (phout) | "drop" (encoder aggregators)
+          Mode,     \* "block" (phout, log) | "drop" (encoder aggregators) | "discard" (aggregator.NewDiscard)
           Bug       \* "none" | "nodrain" | "noflush" | "nocount" | "late"
 
 VARIABLES made,      \* made[g]: number of Report calls of g that returned
@@ -64,7 +68,11 @@ Report(g) ==
     /\ made[g] < M
     /\ Bug = "late" \/ ~cancelled
     /\ LET s == <<g, made[g] + 1>> IN
-       \/ /\ Len(queue) < Q
+       \/ /\ Mode = "discard"                               \* thrown away: no queue, no counter, never blocks
+          /\ made' = [made EXCEPT ![g] = @ + 1]
+          /\ lost' = lost \cup {s}
+          /\ UNCHANGED <<queue, dropped>>
+       \/ /\ Mode # "discard" /\ Len(queue) < Q
           /\ queue' = Append(queue, s)
           /\ made' = [made EXCEPT ![g] = @ + 1]
           /\ UNCHANGED <<dropped, lost>>
@@ -136,13 +144,17 @@ Conservation ==
 
 \* THE property, at Run return
 CompleteAtReturn ==
-    apc = "done" =>
+    (apc = "done" /\ Mode # "discard") =>
         /\ AllReported
         /\ PermutationUpToDrops(disk, SeqOfSet(Reported), result)     \* permutation of the non-dropped reports
         /\ Rng(disk) = Reported \ lost
         /\ CompleteCounts(Len(disk), result, Cardinality(Reported))      \* |written| + dropped = |reported|
         /\ buf = <<>> /\ queue = <<>>                                    \* flushed
         /\ closed                                                        \* and closed
+\* the discard aggregator writes nothing, counts nothing, and its Report is always possible
+DiscardIsInert == Mode = "discard" => /\ queue = <<>> /\ buf = <<>> /\ disk = <<>> /\ dropped = 0
+                                      /\ \A g \in G : (made[g] < M /\ ~cancelled) => ENABLED Report(g)
+                                      /\ (apc = "done" => result = 0 /\ AllReported)
 \* blocking mode never drops
 BlockNeverDrops == Mode = "block" => dropped = 0 /\ lost = {}
 \* nothing reaches the sink after Close
